@@ -439,6 +439,15 @@ def body_diagonalised(case, ctx):
                   "the reflection has a spacelike normal", normal=nv)
     Rh = [np.asarray(hyp[[nm]].matrix).T for nm in names]
     check_relations(ctx, "hyperbolic", Rh, M)
+    # label 2 means "commute": the library's own predicate on the generators says so, and
+    # says the opposite for every other label
+    if kappa < 1e3:
+        for i in range(n):
+            for j in range(i + 1, n):
+                mij = M[i][j]
+                com = bool(np.all(hyp[[names[i]]].commute(hyp[[names[j]]])))
+                ctx.check(com == (mij == 2), "commute() of two generators <=> their label is 2",
+                          i=i, j=j, label=mij, commute=com)
     # the inverse letters are generators too (each reflection is its own inverse), for the
     # representation itself and for what is derived from it
     moved = hyp.conjugate(hyperbolic.Point(np.full(n - 1, 0.2 / math.sqrt(n)),
